@@ -3,12 +3,13 @@
    From the per-method lemmas of Proof/A64WfAll.v through the generic theorem Proof/CodegenForallLinP.v (every piece
    of code_statement's output comes from a back-end method; bounds 4096 / 1024 of Sem/WfGuard64.v), the label
    theorems of Proof/LabelThms.v (labels once, references defined) and the size theorem of C19 (Proof/SizeA64.v:
-   at most 28 + 85 * cg_bound_defs instructions, 4 bytes each - below the reach of B.cond / ADR under reach_guard_a64). *)
+   at most 28 + 85 * cg_bound_defs instructions) in its two-weight refinement Proof/SizeA64Fine.v (28 + cg_fine_defs 14 74
+   instructions of 4 bytes each - below the reach of B.cond / ADR under reach_guard_a64). *)
 From Coq Require Import List ZArith NArith String Ascii Bool Lia.
 From SCC Require Import Base.Sexp Lang.AxSyn Lang.AxSize Model.ParMoves Model.Backend Model.Linearize Model.LinCheck Model.A64
   Model.SizeWf Sem.A64Sem Sem.A64Wf Sem.LabelGuard Sem.WfGuard Sem.WfGuard64 Generated.Constants
   Proof.LinBasics Proof.SubstGraph Proof.LabelStrings Proof.LabelGen Proof.LabelsA64 Proof.LabelThms
-  Proof.CodegenForallLin Proof.CodegenForallLinP Proof.SimFrag Proof.A64SimAddr Proof.SizeCodegenWf Proof.SizeA64
+  Proof.CodegenForallLin Proof.CodegenForallLinP Proof.SimFrag Proof.A64SimAddr Proof.SizeCodegenWf Proof.SizeA64 Proof.SizeA64Fine
   Proof.SubstBackends Proof.A64WfAll.
 From SCC Require Proof.X86WfAll Proof.X86WfCor.
 Import ListNotations.
@@ -166,7 +167,7 @@ Theorem a64_compile_asm_wf p lc cs n lc' :
 Proof.
   intros G1 LIN PN PT IG RG H. pose proof (X86WfCor.lin_check_calls_guard p LIN) as G2.
   destruct (a64_routine_labels p lc cs n lc' G1 G2 H) as (ND & RF & _).
-  pose proof (a64_compile_size p lc cs n lc' (lin_check_prog_sub_wf p LIN) H) as SZ.
+  pose proof (a64_compile_fine_size p lc cs n lc' (lin_check_prog_sub_wf p LIN) H) as SZ.
   unfold a64_compile, a64_compile_with, into_aarch64_routine in H. rstep H. destruct x as [[is n0] l0]. rinv H. inversion H; subst. clear H.
   match goal with E0 : rbind _ _ = Ok _ |- _ => rename E0 into ES end. rstep ES. rename E0 into E1.
   match type of ES with Ok ?t = Ok ?v => assert (EV : v = t) by congruence; subst v; clear ES end.
@@ -210,9 +211,12 @@ Proof.
   rewrite a64_bound_eq, a64_K_85 in B. unfold size_guard in SG. apply N.leb_le in SG. unfold SIZE_MAX in SG.
   apply Z.ltb_lt. pose proof (size_of_le cs). unfold CODE_BASE. lia.
 Qed.
-(* the reach guard is the stronger bound *)
-Lemma reach_size_guard p : reach_guard_a64 p = true -> size_guard p = true.
+(* the reach guard alone bounds the code *)
+Theorem a64_compile_code_small_reach p lc cs n lc' :
+  lin_check_prog p = true -> reach_guard_a64 p = true ->
+  a64_compile p lc = Ok (cs, n, lc') -> code_small cs = true.
 Proof.
-  unfold reach_guard_a64, size_guard. intros H. apply N.ltb_lt in H. rewrite a64_bound_eq, a64_K_85 in H. unfold A64_REACH in H.
-  apply N.leb_le. unfold SIZE_MAX. lia.
+  intros LIN RG H. pose proof (a64_compile_fine_size p lc cs n lc' (lin_check_prog_sub_wf p LIN) H) as B.
+  unfold reach_guard_a64 in RG. apply N.ltb_lt in RG. unfold A64_REACH in RG.
+  apply Z.ltb_lt. pose proof (size_of_le cs). unfold CODE_BASE. lia.
 Qed.
